@@ -29,6 +29,7 @@ for kind in ("pfi", "sage", "batch", "interval"):
             if kind in ("batch", "interval") and storage in ("tree", "geom", "uniform"):
                 continue
             CONFIGS.append((kind, storage, imputer))
+CONFIGS.append(("batch-original", "default", "default"))      # BatchSage.explain_one(..., original_sage=True)
 CONFIGS.append(("pfi", "geom", "river-labels"))
 CONFIGS.append(("sage", "geom", "river-labels"))
 # ONE model object, handed to the explainers as a raw bound method (so the library chooses and creates the wrapper): explaining the
@@ -123,26 +124,54 @@ def build(kind, storage, imputer):
         return IncrementalPFI(model, loss, names, storage=st, imputer=imp, n_inner_samples=2, smoothing_alpha=0.1)
     if kind == "sage":
         return IncrementalSage(model, loss, names, storage=st, imputer=imp, n_inner_samples=2, smoothing_alpha=0.1)
-    if kind == "batch":
-        return BatchSage(model, names, loss, n_inner_samples=1)
+    if kind in ("batch", "batch-original"):
+        return BatchSage(model, names, loss, n_inner_samples=(2 if kind == "batch-original" else 1))
     return IntervalSage(model, names, loss, n_inner_samples=1, interval_length=3, storage_length=4)
 
 
 def digest(ex):
     xs, ys = ([], [])
     try:
-        data = ex._storage.get_data()
-        if isinstance(data[0], dict):   # TreeStorage: dict of trees — use the reservoirs instead
-            xs = [(f, leaf[-40:], [sorted(p.items()) for p in r.get_data()[0]]) for f, d in sorted(ex._storage.data_reservoirs.items())
+        st = ex._storage
+        if hasattr(st, "data_reservoirs"):   # TreeStorage: the contents are the per-feature, per-leaf reservoirs
+            xs = [(repr(f), leaf[-40:], [sorted(p.items()) for p in r.get_data()[0]]) for f, d in sorted(st.data_reservoirs.items(), key=repr)
                   for leaf, r in sorted(d.items())]
         else:
+            data = st.get_data()
             xs, ys = [sorted(x.items()) for x in data[0]], list(data[1])
     except Exception as exn:
         xs = [repr(exn)]
     return repr((xs, ys))
 
 
-def run_once(cfg, sa, sb, n=14, decoys=False, record=False, fresh_model=True):
+class VirtualClock:
+    """replaces the clock functions of the `time` module: `step` seconds pass between any two readings (0 = time stands still)"""
+    NAMES = ("time", "monotonic", "perf_counter", "process_time", "time_ns", "monotonic_ns", "perf_counter_ns")
+
+    def __init__(self, step):
+        self.step, self.now, self.saved = step, 1.0e6, {}
+
+    def __enter__(self):
+        import time
+
+        def tick():
+            self.now += self.step
+            return self.now
+        for nm in self.NAMES:
+            self.saved[nm] = getattr(time, nm)
+            setattr(time, nm, (lambda: int(tick() * 1e9)) if nm.endswith("_ns") else tick)
+        return self
+
+    def __exit__(self, *a):
+        import time
+        for nm, f in self.saved.items():
+            setattr(time, nm, f)
+
+
+def run_once(cfg, sa, sb, n=14, decoys=False, record=False, fresh_model=True, clock_step=None):
+    if clock_step is not None:
+        with VirtualClock(clock_step):
+            return run_once(cfg, sa, sb, n=n, decoys=decoys, record=record, fresh_model=fresh_model)
     import random
     import numpy as np
     global SHARED_MODEL
@@ -185,7 +214,9 @@ def run_once(cfg, sa, sb, n=14, decoys=False, record=False, fresh_model=True):
             ex = build(*cfg)
             outs = []
             for x, y in stream(n, 7):
-                kw = {"verbose": False} if kind in ("batch", "interval") else {}
+                kw = {"verbose": False} if kind in ("batch", "interval", "batch-original") else {}
+                if kind == "batch-original":
+                    kw["original_sage"] = True
                 r = ex.explain_one(x, y, **kw)
                 outs.append(sorted((repr(k), repr(float(v))) for k, v in r.items()))
         finally:
@@ -197,8 +228,8 @@ def run_once(cfg, sa, sb, n=14, decoys=False, record=False, fresh_model=True):
 
 def static_scan():
     hits = []
-    pat = re.compile(r"\b(time\.time|time\.perf_counter|datetime\.now|os\.urandom|secrets\.|uuid\.|default_rng|SystemRandom|"
-                     r"random\.Random\(|np\.random\.RandomState\(|\bid\(|\bhash\()")
+    pat = re.compile(r"\b(time\.(time|monotonic|perf_counter|process_time|thread_time)(_ns)?\b|datetime\.(now|today|utcnow)|date\.today|os\.urandom|"
+                     r"os\.getpid|secrets\.|uuid\.|default_rng|SystemRandom|random\.Random\(|np\.random\.RandomState\(|\bid\(|\bhash\()")
     for root, _, files in os.walk(os.path.join(core.REPO, "ixai")):
         if "visualization" in root:
             continue
@@ -251,10 +282,12 @@ def run(tier="quick", seed=0, replay=None):
             r1 = run_once(cfg, sa, sb, record=True)
             r2 = run_once(cfg, sa, sb, decoys=True, record=True)
             other = run_once(cfg, sa + 1, sb + 1)
+            slow = run_once(cfg, sa, sb, clock_step=2.5)      # the same replay while 2.5 s pass between any two clock readings
+            still = run_once(cfg, sa, sb, clock_step=0.0)     # ... and while time stands still
         except Exception as ex:
             chk.violation(f"exception:{cfg}", f"configuration {cfg} raised {core.err_kind(ex)}: {ex}", {"config": cfg})
             continue
-        for mode in ("replay", "decoys", "recorded", "recorded+decoys"):
+        for mode in ("replay", "decoys", "recorded", "recorded+decoys", "virtual-clock"):
             chk.case({"config": cfg, "seeds": [sa, sb], "mode": mode, "last_values": a[1]}, nontrivial=True, sample=(cfg == CONFIGS[0] and mode == "replay"))
         chk.stat(f"kind:{cfg[0]}")
         chk.stat("draws_recorded", len(r1[2] or []))
@@ -262,6 +295,10 @@ def run(tier="quick", seed=0, replay=None):
             chk.violation(f"replay:{cfg}", f"{cfg}: two replays with random.seed({sa}), np.random.seed({sb}) differ: {a[1]} vs {b[1]}", {"config": cfg, "seeds": [sa, sb]})
         elif a[0] != c[0]:
             chk.violation(f"decoys:{cfg}", f"{cfg}: replay after creating and using other library objects differs: {a[1]} vs {c[1]}", {"config": cfg, "seeds": [sa, sb]})
+        elif a[0] != slow[0] or a[0] != still[0]:
+            which = "2.5 s pass between any two readings of the clock" if a[0] != slow[0] else "time stands still"
+            chk.violation(f"clock:{cfg}", f"{cfg}: the replay differs when {which} (virtual clock substituted for the `time` module's clock functions): "
+                          f"{a[1]} vs {(slow if a[0] != slow[0] else still)[1]}", {"config": cfg, "seeds": [sa, sb], "virtual_clock": True})
         elif a[0] != r1[0]:
             chk.tie_failure("recording", f"{cfg}: pass-through recording of the draws changed the result")
         elif r1[2] != r2[2] or r1[0] != r2[0]:
